@@ -296,7 +296,6 @@ Proof.
     destruct (N.eqb_spec a (e_coinbase e)) as [->|]; destruct (N.eqb_spec (e_coinbase e) (m_from m)) as [Heq|];
       try rewrite Heq; rewrite ?N.eqb_refl;
       try (destruct (N.eqb_spec a (m_from m)) as [->|]); try congruence; try lia.
-    destruct (N.eqb_spec (m_from m) (e_coinbase e)); congruence || lia.
   - intros a Ha. rewrite Hs'.
     set (s4 := add_bal _ _ _).
     assert (Hd4 : In a (st_dead s4)) by (unfold s4; rewrite !dead_add_bal; exact Ha).
@@ -353,13 +352,10 @@ Proof.
   repeat split; try lia.
   intros a. rewrite Hs'. unfold bal at 1, get at 1. cbn [st_acc].
   match goal with |- a_bal (st_acc ?st a) = _ => change (a_bal (st_acc st a)) with (bal st a) end.
-  rewrite !bal_add_bal, bal_transfer. unfold s1'. rewrite !bal_set_nonce. unfold s1. rewrite !bal_sub_bal.
-  rewrite ?N.eqb_refl.
-  destruct (N.eqb_spec a (e_coinbase e)) as [->|];
-    destruct (N.eqb_spec (e_coinbase e) (m_from m)) as [Heq|]; try rewrite Heq in *; rewrite ?N.eqb_refl;
-    try (destruct (N.eqb_spec a (m_from m)) as [->|]); rewrite ?N.eqb_refl;
-    repeat match goal with |- context [N.eqb ?x ?y] => destruct (N.eqb_spec x y); try congruence end;
-    try lia.
+  unfold s1', s1.
+  repeat rewrite ?bal_add_bal, ?bal_transfer, ?bal_set_nonce, ?bal_sub_bal.
+  repeat match goal with |- context [N.eqb ?x ?y] =>
+    destruct (N.eqb_spec x y); try congruence end; subst; try lia.
 Qed.
 
 (** *** why a transaction is rejected *)
